@@ -108,3 +108,53 @@ def extract(L, relpath, funcname, selector, nth=0, body_only=False):
             'dropped': 'statements of %s outside lines %d-%d (the caller supplies an arbitrary state satisfying the stated precondition)' % (funcname, node.lineno,
                                                                                                                                          getattr(node, 'end_lineno', node.lineno))}
     return block, info
+
+
+def extract_range(L, relpath, funcname, first_selector, last_selector):
+    """like extract(), for the consecutive statements of one body from the first statement matching first_selector to the first later one matching last_selector"""
+    mod = L.load(relpath)
+    path = os.path.join(L.repo, relpath)
+    text = L.source_text(path)
+    tree = ast.parse(text, filename=path)
+    fn = find_function(tree, funcname)
+    first = select(fn, first_selector)
+    body = None
+    for n in ast.walk(fn):
+        for field in ('body', 'orelse', 'finalbody'):
+            b = getattr(n, field, None)
+            if isinstance(b, list) and first in b:
+                body = b
+    if body is None:
+        raise BlockError('first statement is not in a statement list')
+    i0 = body.index(first)
+    i1 = None
+    for k in range(i0, len(body)):
+        if last_selector(body[k]):
+            i1 = k
+            break
+    if i1 is None:
+        raise BlockError('last statement not found after the first one in the same body')
+    stmts = body[i0:i1 + 1]
+    esc = _escapes(stmts)
+    if esc:
+        raise BlockError('block leaves itself through %r' % (esc,))
+    loads, stores = _names(stmts)
+    modnames = set(mod.__dict__) | set(dir(builtins))
+    free = []
+    for nm in loads:
+        if nm not in free and nm not in modnames:
+            free.append(nm)
+    pro = [ast.parse("if %r in __state__:\n    %s = __state__[%r]" % (nm, nm, nm)).body[0] for nm in free]
+    ret = ast.parse("return dict(locals())").body[0]
+    f = ast.FunctionDef(name='__block__', args=ast.arguments(posonlyargs=[], args=[ast.arg(arg='__state__')], kwonlyargs=[], kw_defaults=[], defaults=[]),
+                        body=pro + stmts + [ret], decorator_list=[], type_params=[])
+    m = ast.Module(body=[f], type_ignores=[])
+    m = _loader._FloatLiterals().visit(m)
+    ast.fix_missing_locations(m)
+    ns = mod.__dict__
+    code = compile(m, path + ':<block %s:%d-%d>' % (funcname, stmts[0].lineno, getattr(stmts[-1], 'end_lineno', stmts[-1].lineno)), 'exec')
+    exec(code, ns)
+    block = ns.pop('__block__')
+    info = {'file': relpath, 'function': funcname, 'first_line': stmts[0].lineno, 'last_line': getattr(stmts[-1], 'end_lineno', stmts[-1].lineno), 'free_variables': free,
+            'dropped': 'statements of %s outside lines %d-%d' % (funcname, stmts[0].lineno, getattr(stmts[-1], 'end_lineno', stmts[-1].lineno))}
+    return block, info
